@@ -69,7 +69,7 @@ CHECKS = {
     "C07": (
         True,
         "exploration",
-        "save/load round trip on agents with seeded histories: strict structural equality walker + paired continuation differential (same batches, same RNG state) for both load paths",
+        "save/load round trip on agents with seeded histories: strict structural equality walker + paired continuation differential (same batches, same RNG state) for both load paths (load_checkpoint also into existing agents with their own mutations / learn steps / optional constructor values) + independence fingerprint of a second agent restored from the same file while the first trains",
         "Every algorithm x observation family (plus RSNorm-wrapped agents) is saved after a prefix of a seeded history "
         "(learn steps, mutations, clones, tournament rounds) and restored through Algo.load and load_checkpoint; all leaves "
         "incl. target networks, optimizer state and bookkeeping are compared, then original and restored agent learn k more "
@@ -101,11 +101,13 @@ CHECKS = {
     "C06": (
         True,
         "exploration",
-        "postcondition monitor on Mutations.mutation(rl_hp) with recorded torch.rand/randperm variates (module-attribute interposition) + arithmetic reference from the agent's own previous value + param_groups inspection",
+        "postcondition monitor on Mutations.mutation(rl_hp) with recorded torch.rand/randperm variates (module-attribute interposition) + arithmetic reference from the agent's own previous value + param_groups inspection + constructor-twin differential (the mutated agent must learn like a freshly constructed agent that was given the new values and the same weights / moments; control comparison before the mutation)",
         "All 11 algorithms, populations built from one shared HyperparameterConfig / create_population / after selection, "
         "random and boundary RLParameter ranges, up to 30 consecutive mutation rounds; value, range, number type, single "
-        "change, reported name, lr of every optimizer group and non-interference with other agents are checked per mutation.",
-        "Effect of batch_size / learn_step is read as the agent attribute (what the loops use).",
+        "change, reported name, lr of every optimizer group and non-interference with other agents are checked per mutation; "
+        "for gamma, batch_size, learning rates and v_min one learn step of the mutated agent (plain and RSNorm-wrapped) is compared "
+        "with the same step of a constructor twin.",
+        "Twin comparison only where the agent matched its twin before the mutation; learn_step has no effect inside learn().",
         "DESIGN.md#c06",
     ),
     "C02": (
@@ -154,7 +156,8 @@ CHECKS = {
         "boundary monitor on get_action of all 11 algorithms: space membership per row, mask arithmetic, greedy optimality against scores captured during the same call (instance-level forward wrapper / frame tap), fed zero variates for the random branches",
         "All action-space kinds x observation kinds x exploration settings; ALL 2^n-1 masks for n<=5 (exhaustive sub-space), "
         "forced ties / +-1e30 network outputs, per-agent masks and env-defined actions for the multi-agent learners; every "
-        "returned action is checked for shape, membership, mask legality and (exploration off) optimality among allowed actions.",
+        "returned action is checked for shape, membership, mask legality and (exploration off) optimality among allowed actions; "
+        "the same mask object is handed over on consecutive calls, agents may have no legal action in single sub-environments.",
         "PPO/IPPO bounds only in evaluation mode (statement); partly infinite Box bounds and non-ndarray mask forms are information only.",
         "DESIGN.md#c14",
     ),
@@ -184,8 +187,9 @@ CHECKS = {
         "exploration",
         "boundary wrappers on EvolvableDistribution/StochasticActor/PPO.evaluate_actions with logits captured during the observed call + float64 numpy oracle (no torch.distributions); real PPO.learn / IPPO.learn re-evaluation observed",
         "Discrete, MultiDiscrete, MultiBinary, Box (incl. shape (1,)), squash on/off, masks incl. all-but-one, log-std "
-        "initialisations, random weights; returned action support, log-probability, entropy, masked probability and the "
-        "re-evaluation of stored actions (actor, evaluate_actions, inside learn) are recomputed independently.",
+        "initialisations, random weights, wide spaces (8-12 components), mask buffers re-used and rewritten in place between calls; "
+        "returned action support, log-probability, entropy, masked probability and the re-evaluation of stored actions (actor, "
+        "evaluate_actions, inside learn) are recomputed independently.",
         "Squashed entropy has no closed form (finiteness only); squashed log-prob checked in tanh coordinates.",
         "DESIGN.md#c16",
     ),
@@ -215,8 +219,9 @@ CHECKS = {
         "end-to-end runs of the six real train_* loops on instrumented counting environments with passive wrappers on get_action/learn/test/clone/select/mutation/save_checkpoint; per-generation offline check of the recorded event log",
         "Every loop x algorithm x {single, vectorised with num_envs <,=,> learn_step} x memory kind x {HPO on/off} x "
         "{checkpoint on/off} with tiny budgets crossing several generations: crashes, population size/indices, step "
-        "accounting against environment counters, budget stop generation, fitness growth, elitism carry-over and "
-        "checkpoint coverage are checked.",
+        "accounting against environment counters, budget stop generation, fitness growth, elitism carry-over, checkpoint "
+        "coverage and bounded learn progress of the off-policy loops (a ready buffer is learnt from within "
+        "2*max(learn_step, num_envs)+num_envs environment steps) are checked.",
         "swap_channels / accelerator / wandb paths not driven; combinations a loop's docstring excludes are probes only.",
         "DESIGN.md#c20",
     ),
